@@ -190,7 +190,7 @@ func drawScenario() *Scenario {
 			s.hypSynthetic = verif.Bool("hyperlane-token-is-synthetic-of-another-denom")
 		}
 		f = &core.Forwarding{ProtocolId: core.PROTOCOL_HYPERLANE, PassthroughPayload: pt}
-		must(f.SetAttributes(&fwdtypes.HypAttributes{TokenId: make([]byte, 32), DestinationDomain: s.domain, Recipient: make([]byte, 32), GasLimit: math.ZeroInt(), MaxFee: sdk.Coin{Denom: "uusdc", Amount: maxFee}}))
+		must(f.SetAttributes(&fwdtypes.HypAttributes{TokenId: hypTokenID(), DestinationDomain: s.domain, Recipient: make([]byte, 32), GasLimit: math.ZeroInt(), MaxFee: sdk.Coin{Denom: "uusdc", Amount: maxFee}}))
 	default:
 		s.intKind = verif.Choose("internal-recipient", verif.Bound("intKinds"))
 		rcpt := []string{user1.String(), feeR1.String(), modAddr(core.DustCollectorName).String(), core.ModuleAddress.String(), "noble1nope", orbiterUpper()}[s.intKind]
@@ -336,4 +336,14 @@ func snap(l *Ledger) snapshot {
 		out = append(out, row)
 	}
 	return out
+}
+
+// hypTokenID: the warp token the scenario's Hyperlane payloads name — the same one World.Earlier used (whatever a
+// controller remembers about a token from an earlier transfer must not change how a later transfer is checked).
+func hypTokenID() []byte {
+	b := make([]byte, 32)
+	for i := range b {
+		b[i] = 0xb1
+	}
+	return b
 }
